@@ -67,8 +67,10 @@ RULE = ('Hypothesis cases of two kinds.  kind=op (about 85%): a file '
         'written.  A worker process that dies is a violation.  Non-trivial: '
         'op cases in which the call completed on a file with >=1 non-empty '
         'variable; histories containing close(A) ... open(B) ... second '
-        'close of A (explicit, or by its finaliser after drop/collect) with '
-        'B still open.  Distinct by sha1 of the case spec.')
+        'close of A (explicit, or by its finaliser after drop/collect) while '
+        'B has not been closed (B live, or dropped but not yet collected) - '
+        'this is also the input class of the known double-close finding.  '
+        'Distinct by sha1 of the case spec.')
 ASSUMPTIONS = [
     'vf.spec.snapshot observes everything the property lists (dimensions, '
     'attribute values, variable data, masks, variable metadata) through '
@@ -586,6 +588,8 @@ def check_hist(case):
     live = []     # dicts: h, i, closed, opened_at, first_close_at
     garbage = []  # model: dropped handles that were closed and may still be
     #               finalised (they call close() again): first_close_at
+    open_garbage = []  # opened_at of handles dropped while open and not yet
+    #               collected: they still own a C id and can be hit too
     hazard = False
     was_gc = gc.isenabled()
     # no finaliser left over from an earlier case may fire inside this one
@@ -618,6 +622,7 @@ def check_hist(case):
                     second_close_of.append(e['first_close_at'])
                     r.label('drop-closed')
                 else:
+                    open_garbage.append(e['opened_at'])
                     r.label('drop-open')
                 e['h'] = None
                 del e
@@ -633,8 +638,10 @@ def check_hist(case):
                 if c is None:
                     continue
                 if any((not e['closed']) and e['opened_at'] > c
-                       for e in live):
+                       for e in live) or any(o > c for o in open_garbage):
                     hazard = True
+            if op == 'collect':
+                open_garbage = []   # finalised now (their first close)
             klass = 'after-second-close' if hazard else 'no-second-close'
             # invariant: every model-open handle reads back in full
             for k, e in enumerate(live):
